@@ -93,7 +93,7 @@ def fault_prefix(co, acc, origin, after_refused, inject):
         acc.counters.update(fctx.counters)
 
 
-def check_code(co, acc, origin, ver, after_refused=None, inject=False):
+def check_code(co, acc, origin, ver, after_refused=None, inject=False, swap_from=None):
     from numba_scfg.core.datastructures.byte_flow import ByteFlow
     from ..oracles.bytecode import check_byteflow
 
@@ -113,8 +113,27 @@ def check_code(co, acc, origin, ver, after_refused=None, inject=False):
             acc.histograms["opcodes_seen"][i.opname] += 1
         elif i.opname in corpus.NOFALL:
             acc.histograms["opcodes_seen"][i.opname] += 1
+    subject = co
+    if swap_from is not None and not co.co_freevars and not swap_from.co_freevars:
+        # history: the front end is first asked about a live function object,
+        # the function's code is then replaced in place (f.__code__ = ..., what
+        # hot reloaders do) and the same object is asked about again
+        import types
+
+        try:
+            fn = types.FunctionType(swap_from, {})
+            try:
+                ByteFlow.from_bytecode(fn)
+            except Exception:
+                pass
+            fn.__code__ = co
+            subject = fn
+            acc.counters["rebuilds_after_code_swap"] += 1
+            case["swapped_from"] = True
+        except (TypeError, ValueError):
+            subject = co
     try:
-        flow = ByteFlow.from_bytecode(co)
+        flow = ByteFlow.from_bytecode(subject)
     except Exception as e:
         key = exc_key(e)
         mech = None
@@ -163,6 +182,7 @@ def run_shard(spec):
     if spec["kind"] == "stdlib":
         last_bad = None
         n_el = 0
+        prev_co = None
         for path, co in corpus.stdlib_code_shard(spec["shard"], spec["nshards"],
                                                 spec.get("limit_files")):
             acc.counters["code_objects_seen." + ver] += 1
@@ -174,7 +194,9 @@ def run_shard(spec):
             n_el += 1
             bad = last_bad if n_el % 2 == 0 else None
             last_bad = None if bad else last_bad
-            check_code(co, acc, org, ver, after_refused=bad, inject=(n_el % 5 == 0))
+            check_code(co, acc, org, ver, after_refused=bad, inject=(n_el % 5 == 0),
+                       swap_from=prev_co if n_el % 3 == 1 else None)
+            prev_co = co
     elif spec["kind"] == "dynamic":
         from . import c09dyn
         c09dyn.run(spec, acc, ver)
